@@ -1268,6 +1268,7 @@ def r_unbound(P, R):
             params.add(fn.args.vararg.arg)
         if fn.args.kwarg:
             params.add(fn.args.kwarg.arg)
+        pos = au.positions(fn)
         for blk in au.blocks_of(fn):
             for k, lp in enumerate(blk):
                 if not isinstance(lp, (ast.For, ast.While)):
@@ -1291,14 +1292,14 @@ def r_unbound(P, R):
                 before = set(params)
                 for x in ast.walk(fn):
                     if isinstance(x, ast.Name) and isinstance(
-                            x.ctx, ast.Store) and x.lineno < lp.lineno:
+                            x.ctx, ast.Store) and pos[id(x)] < pos[id(lp)]:
                         before.add(x.id)
                     if isinstance(x, (ast.FunctionDef, ast.ClassDef)) \
-                            and x is not fn and x.lineno < lp.lineno:
+                            and x is not fn and pos[id(x)] < pos[id(lp)]:
                         before.add(x.name)
                 rebound = set()
                 later_stores = [
-                    (y.id, y.lineno, y.col_offset) for s2 in blk[k + 1:]
+                    (y.id, pos[id(y)]) for s2 in blk[k + 1:]
                     for y in ast.walk(s2) if isinstance(y, ast.Name)
                     and isinstance(y.ctx, ast.Store)]
                 for s in blk[k + 1:]:
@@ -1306,9 +1307,8 @@ def r_unbound(P, R):
                         ast.Assign, ast.AnnAssign, ast.AugAssign)) and \
                         getattr(s, 'value', None) is not None else s
                     for x in _free_loads(val):
-                        if any(nm == x.id and (ln, co) < (
-                                x.lineno, x.col_offset)
-                               for nm, ln, co in later_stores):
+                        if any(nm == x.id and ps < pos[id(x)]
+                               for nm, ps in later_stores):
                             continue
                         if x.id in inside and x.id not in before and \
                                 x.id not in rebound:
